@@ -159,6 +159,7 @@ def run_world(case, res=None):
     w = world.World(case["tasks"], case.get("schedule")).run()
     if res is not None:
         res.sched = w.schedule_digest()
+        res.digest = w.digest()
         res.count("steps", len(w.history))
         res.count("bytes", sum(t.n_input for t in w.tasks.values()))
         res.count("tasks", len(w.tasks))
